@@ -13,7 +13,7 @@ From Coq Require Import List NArith ZArith Bool.
 Import ListNotations.
 Require Import MV.C11.Model MV.C11.Spec MV.C11.Exec MV.C11.ProofsFraming MV.C11.ProofsInv
         MV.C11.ProofsState MV.C11.ProofsCount MV.C11.ProofsOrder MV.C11.ProofsWire MV.C11.ProofsReflect
-        MV.C11.ProofsStream MV.C11.ProofsBook MV.C11.ProofsMain MV.C11.ProofsSpecOk MV.C11.Wake.
+        MV.C11.ProofsStream MV.C11.ProofsBook MV.C11.ProofsMain MV.C11.ProofsSpecOk MV.C11.ProofsGone MV.C11.ProofsGoneTrack MV.C11.ProofsGoneSpec MV.C11.Wake.
 From Coq Require Import Permutation.
 Open Scope N_scope.
 
@@ -151,6 +151,47 @@ Theorem C11_example_run :
     lookup 2 (clients sf) = Some c /\ overflowed c = false /\ obs_ok obs = true /\
     split_frames (sent c) = ([[10; 11; 10; 1; 109; 16; 1; 26; 1; 115; 34; 1; 100]; [7; 7]; [8; 8]; [7; 7]], []).
 Proof. exact example_run. Qed.
+
+(* Clients the model has REMOVED by the end of a run (write error / zero write: the `gone` ghost).
+   What such a client's socket accepted is whole frames plus a proper prefix of one frame (as the
+   Spec allows for a client that left), in order a subsequence of what was enqueued for it, and what
+   was enqueued for it is a prefix of (metadata at its accept ++ frames fanned out after its
+   accept): nothing from after its removal. *)
+Theorem C11_removed_client_stream : forall limit evs1 order evs2 s1 s2 sf o1 o2,
+  Forall ev_wf evs1 -> Forall ev_wf evs2 ->
+  run fixed limit st0 evs1 = Some (s1, o1) ->
+  step fixed limit s1 (EAccept order) = Some s2 ->
+  run fixed limit s2 evs2 = Some (sf, o2) ->
+  lookup (next_token s1) (clients sf) = None ->
+  exists ms cg bs rest,
+    gen_meta (metadata s1) order = Some ms /\
+    lookup (next_token s1) (gone sf) = Some cg /\
+    sent cg = concat (map enc bs) ++ pfx cg /\ tail_ok (pfx cg) /\
+    split_frames (sent cg) = (bs, pfx cg) /\
+    Subseq (map enc bs) (enq cg) /\
+    ms ++ wake_frames evs2 = enq cg ++ rest.
+Proof. exact removed_client_stream. Qed.
+
+(* C11_spec_ok_on_model without the still_connected hypothesis: [case_wf_all] is [case_wf] with
+   "the client is still in the model's `clients`" replaced by "the model has a record of the client,
+   connected or removed" (find_client).  What remains is only the meaning of the mark: a client
+   marked as STAYING (connected and reading until the end) is connected in the model's final state;
+   for a staying client that the model had removed the statement would be false (spec_ok demands its
+   stream whole and complete).  C11_spec_ok_on_model is the special case (C11_case_wf_weaken). *)
+Theorem C11_spec_ok_on_model_all_clients : forall c,
+  case_wf_all c -> harness_ok c = true -> spec_ok c (run_case c) = true.
+Proof. exact spec_ok_on_model_all. Qed.
+
+Theorem C11_case_wf_weaken : forall c, case_wf c -> case_wf_all c.
+Proof. exact case_wf_weaken. Qed.
+
+(* satisfiable with a client the model has removed (token 2: write error during a fan-out) *)
+Theorem C11_spec_ok_on_model_removed_example :
+  (case_wf_all ex_case_gone /\
+   exists sf obs, run fixed (Some 2) st0 (c_events ex_case_gone) = Some (sf, obs) /\
+                  lookup 2 (clients sf) = None /\ lookup 2 (gone sf) <> None) /\
+  harness_ok ex_case_gone = true /\ spec_ok ex_case_gone (run_case ex_case_gone) = true.
+Proof. exact (conj ex_case_gone_wf ex_case_gone_spec_ok). Qed.
 
 (* The emitter -> transport wake-up handshake, in the separate interleaving model of Wake.v
    (push_metric = try_send then wake; mio waker; the WAKER arm's receive loop; any number of
